@@ -77,7 +77,7 @@ class _Conv:
 
 
 def run(ctx):
-    repo.setup(extensions=False)
+    repo.setup()
     from TotalDepth.common import Rle
     from TotalDepth.LIS.core import Rle as LisRle
 
